@@ -122,40 +122,48 @@ MAX_INST = 6000
 
 
 def instantiate_quantifiers(fs):
-    """replace top-level universal hypotheses over uninterpreted sorts by their instances at all ground constants.
-    Returns (qf_formulas, complete) -- complete=False if some quantifier was left in place."""
-    flat = []
-    for f in fs:
-        _flatten_and(_pos(f), flat)
-    consts = _ground_consts(flat)
+    """ground version of the hypotheses: every universal quantifier in positive position is replaced by the conjunction
+    of its instances at the relevant ground terms (uninterpreted sorts), or dropped (Int/Real-indexed ones).  This only
+    weakens the hypotheses, so `unsat` is sound; `sat` is a *candidate* counter-model.  Returns (formulas, complete)."""
+    import itertools
+    nnf = [_pos(f) for f in fs]
+    consts = _ground_consts(nnf)
+    state = {"complete": True, "budget": MAX_INST}
+
+    def inst(e, depth=0):
+        if z3.is_quantifier(e):
+            if e.is_forall():
+                sorts = [e.var_sort(i) for i in range(e.num_vars())]
+                if all(s.kind() == z3.Z3_UNINTERPRETED_SORT for s in sorts):
+                    pools = [list(consts.get(s.name(), {}).values()) for s in sorts]
+                    n = 1
+                    for p in pools:
+                        n *= max(1, len(p))
+                    if all(pools) and n <= state["budget"] and depth < 3:
+                        state["budget"] -= n
+                        out = []
+                        for tup in itertools.product(*pools):
+                            out.append(inst(_pos(z3.substitute_vars(e.body(), *reversed(tup))), depth + 1))
+                        return z3.And(*out) if out else z3.BoolVal(True)
+                state["complete"] = False
+                return z3.BoolVal(True)          # dropped hypothesis
+            # existential left after skolemisation (nested): keep (z3 skolemises)
+            return e
+        if z3.is_app(e):
+            k = e.decl().kind()
+            if k == z3.Z3_OP_AND:
+                return z3.And(*[inst(c, depth) for c in e.children()])
+            if k == z3.Z3_OP_OR:
+                return z3.Or(*[inst(c, depth) for c in e.children()])
+        return e
+
     out = []
-    complete = True
-    for f in flat:
-        if z3.is_quantifier(f) and f.is_forall():
-            sorts = [f.var_sort(i) for i in range(f.num_vars())]
-            if all(s.kind() == z3.Z3_UNINTERPRETED_SORT for s in sorts):
-                pools = [list(consts.get(s.name(), {}).values()) for s in sorts]
-                n = 1
-                for p in pools:
-                    n *= max(1, len(p))
-                if n <= MAX_INST and all(pools):
-                    import itertools
-                    for tup in itertools.product(*pools):
-                        inst = z3.substitute_vars(f.body(), *reversed(tup))
-                        sub = []
-                        _flatten_and(_pos(inst), sub)
-                        for x in sub:
-                            if z3.is_quantifier(x):
-                                complete = False
-                            out.append(x)
-                    continue
-                if not all(pools):
-                    continue   # no ground term of that sort: the hypothesis cannot matter for a QF refutation
-            complete = False
-            out.append(f)
-        else:
-            out.append(f)
-    return out, complete
+    for f in nnf:
+        g = inst(f)
+        sub = []
+        _flatten_and(g, sub)
+        out.extend(x for x in sub if not z3.is_true(x))
+    return out, state["complete"]
 
 
 def _all_formulas(ob, str_axioms):
@@ -204,8 +212,8 @@ def decide(ob, str_axioms, timeout_ms=20000, use_cvc5=True, name=None):
     full_sat = r if r[0] == "sat" else None
     inst, complete = build_inst(ob, str_axioms)
     rq = ("skipped", 0.0, None)
-    if len(inst) < 12000000:
-        rq = _solve_z3(inst, min(timeout_ms, 10000))
+    if len(inst) < 25000000:
+        rq = _solve_z3(inst, timeout_ms)
         tried.append(("z3-inst", rq[0], rq[1] if isinstance(rq[1], float) else 0.0))
         if rq[0] == "unsat":
             return (name, "unsat", "z3-inst", rq[1], None, tried, full)
